@@ -15,6 +15,7 @@ CONSTANTS
  WithMemMerge = TRUE
  MaxMergeInputs = 2
  AsyncRelease = FALSE
+  WithMergeFail = FALSE
  MaxOpens = 2
 CONSTRAINT Bound
 INVARIANTS RootIsReplay UniqueLive HeldAreReplays EveryBoltIsAState Durable BoltFilesOnDisk RootFilesOnDisk
